@@ -1,7 +1,10 @@
 VARIANTS = {
     # default x86-64 build: autodetect + AES-NI + fixslice64 fallback
     "aes:ni": dict(crate="aes", common_mods=["uf", "generic"]),
-    "aes:ni+zeroize": dict(crate="aes", features=["zeroize"], common_mods=["uf", "generic"]),
+    # zeroize build: C16 harnesses for the autodetect types live INSIDE crate::autodetect (they call the private
+    # aes_intrinsics::init_get() to run CPU detection without constructing a cipher)
+    "aes:ni+zeroize": dict(crate="aes", features=["zeroize"], common_mods=["uf", "generic"],
+                           inner=[("src/autodetect.rs", "crate::autodetect", "aes/auto_inner.rs")]),
     "aes:ni+hazmat": dict(crate="aes", features=["hazmat"], common_mods=["uf", "generic"]),
 }
 _NI = ["aes/ni_model.rs", "aes/c02_ni.rs"]
@@ -16,8 +19,8 @@ PLAN = {
     "C13": [("aes:ni", _NI)],
     "C04": [("aes:ni", _X), ("aes:ni+hazmat", _HZ)],
     "C15": [("aes:ni", _X)],
-    "C16": [("aes:ni+zeroize", _X)],
-    "C17": [("aes:ni+hazmat", _HZ)],
+    "C16": [("aes:ni+zeroize", ["aes/ni_model.rs"])],     # harnesses come from the variant's inner module
+    "C17": [("aes:ni+hazmat", _HZ + ["aes/c02_ni.rs"])],   # c02_ni.rs carries the oracle lemma fips_mc_inverse (prop C17)
     "C19": [("aes:ni", _X)],
     "C20": [("aes:ni", _X)],
 }
